@@ -901,7 +901,7 @@ func ruleIndexEntryComplete(r *Report) {
 			}
 		})
 		// (2) conversions to IndexVal outside Load (Load is covered by loader-mapping)
-		if shortPkg(pk.Path()) != "sstables" || fn.Name() == "Load" {
+		if shortPkg(pk.Path()) != "sstables" || fnName(fn) == "Load" {
 			continue
 		}
 		okOff, okCk, m, bad := false, false, 0, false
@@ -1231,7 +1231,7 @@ func ruleLoaderMapping(r *Report) {
 	const rl = "loader-mapping"
 	r.Rule(rl, 3, "every index loader builds its entries from (Key, ValueOffset → Offset, Checksum → Checksum) of the decoded index record")
 	for _, fn := range p.FuncsOfPkg("sstables") {
-		if fn.Name() != "Load" || fn.Signature.Recv() == nil {
+		if fnName(fn) != "Load" || fn.Signature.Recv() == nil {
 			continue
 		}
 		okOff, okCk, n, bad := false, false, 0, false
